@@ -430,6 +430,12 @@ def corpus():
         ('user', _rq(), 0), ('peer', _ac().encode(), 1), ('user', gen(_store_rq(64)), 1),
         ('peer', enc(_store_rsp()) + pdu.AReleaseRqPDU().encode(), 1 + len(_store_rq(64))),
         ('user', pdu.AReleaseRpPDU(), 3), ('close', None, 2 + len(_store_rq(64)))])
+    # release collision, requestor side: both A-RELEASE-RQ cross (AR-8 -> Sta9), the local user answers (AR-9 -> Sta11),
+    # the peer's A-RELEASE-RP ends the association (AR-3)
+    c['req_release_collision'] = (False, [
+        ('user', _rq(), 0), ('peer', _ac().encode(), 1), ('user', pdu.AReleaseRqPDU(), 1),
+        ('peer', pdu.AReleaseRqPDU().encode(), 2), ('user', pdu.AReleaseRpPDU(), 2),
+        ('peer', pdu.AReleaseRpPDU().encode(), 3), ('close', None, 3)])
     c['req_release_confirm_and_close'] = (False, [
         ('user', _rq(), 0), ('peer', _ac().encode(), 1), ('user', pdu.AReleaseRqPDU(), 1),
         ('peer', pdu.AReleaseRpPDU().encode(), 2), ('close', None, 2)])
